@@ -30,3 +30,44 @@ def merge_piece_without_new_points(rec):
             nofresh = True
         seen |= pts
     return nofresh and bool(rec.get("pieces_without_new_points", True))
+
+
+def _cols(rec):
+    return ((rec.get("case") or {}).get("cols")) or []
+
+
+def _is_number_like(s):
+    try:
+        float(s)
+        return True
+    except (TypeError, ValueError):
+        return False
+
+
+def csv_string_column_with_numeric_cell(rec):
+    """F-C13c: a csv STRING column that contains both a cell that parses as a number and a cell that does not
+    (np.genfromtxt(dtype=None) of numpy 2.x raises TypeError while deducing the column type)."""
+    if rec.get("property") != "C13" or not rec.get("what", "").startswith("F-C13c:"):
+        return False
+    return any(t == "str" and any(_is_number_like(v) for v in vals) and any(not _is_number_like(v) for v in vals)
+               for _, t, vals in _cols(rec))
+
+
+def csv_string_cell_outer_whitespace(rec):
+    """F-C13e: a string cell with leading white space in the first column / trailing white space in the last column
+    (np.genfromtxt strips every line before splitting it)."""
+    if rec.get("property") != "C13" or not rec.get("what", "").startswith("F-C13e:"):
+        return False
+    cols = _cols(rec)
+    if not cols:
+        return False
+    first, last = cols[0], cols[-1]
+    return (first[1] == "str" and any(str(v) != str(v).lstrip() for v in first[2])) or \
+           (last[1] == "str" and any(str(v) != str(v).rstrip() for v in last[2]))
+
+
+def csv_uint64_beyond_int64(rec):
+    """F-C13f: an unsigned integer csv column holding a value >= 2^63 (np.genfromtxt tries int64, then float64)."""
+    if rec.get("property") != "C13" or not rec.get("what", "").startswith("F-C13f:"):
+        return False
+    return any(t in ("uint", "int") and any(isinstance(v, int) and v >= 2 ** 63 for v in vals) for _, t, vals in _cols(rec))
